@@ -219,3 +219,162 @@ func SegSeg(a1, a2, b1, b2 P2) SegInter {
 	t := new(big.Rat).Quo(num, den)
 	return SegInter{Kind: 1, PX: radd(R(a1.X), rmul(t, dax)), PY: radd(R(a1.Y), rmul(t, day))}
 }
+
+// Hull returns the strict convex hull (extreme points only, counter-clockwise, no repeated
+// closing point) of a point multiset, computed by a monotone chain in exact arithmetic.
+// 1 distinct point -> that point; all collinear -> the two extreme points.
+func Hull(pts []P2) []P2 {
+	seen := map[P2]bool{}
+	var u []P2
+	for _, p := range pts {
+		if !seen[p] {
+			seen[p] = true
+			u = append(u, p)
+		}
+	}
+	// insertion sort by (x,y): inputs are small
+	for i := 1; i < len(u); i++ {
+		for j := i; j > 0 && lexLess(u[j], u[j-1]); j-- {
+			u[j], u[j-1] = u[j-1], u[j]
+		}
+	}
+	if len(u) <= 2 {
+		return u
+	}
+	var lower, upper []P2
+	for _, p := range u {
+		for len(lower) >= 2 && Orient(lower[len(lower)-2], lower[len(lower)-1], p) <= 0 {
+			lower = lower[:len(lower)-1]
+		}
+		lower = append(lower, p)
+	}
+	for i := len(u) - 1; i >= 0; i-- {
+		p := u[i]
+		for len(upper) >= 2 && Orient(upper[len(upper)-2], upper[len(upper)-1], p) <= 0 {
+			upper = upper[:len(upper)-1]
+		}
+		upper = append(upper, p)
+	}
+	h := append(lower[:len(lower)-1], upper[:len(upper)-1]...)
+	if len(h) < 3 {
+		// all collinear: the chain degenerates to the two extreme points
+		return []P2{u[0], u[len(u)-1]}
+	}
+	return h
+}
+
+// SimpleRing reports whether the closed ring (first == last) is a simple polygon: at least 3
+// distinct vertices, no repeated vertex, adjacent edges meet only in their shared vertex and
+// non-adjacent edges do not meet at all.
+func SimpleRing(ring []P2) bool {
+	n := len(ring) - 1
+	if n < 3 || ring[0] != ring[n] {
+		return false
+	}
+	for i := 0; i < n; i++ {
+		for j := i + 1; j < n; j++ {
+			if ring[i] == ring[j] {
+				return false
+			}
+		}
+	}
+	for i := 0; i < n; i++ {
+		for j := i + 1; j < n; j++ {
+			r := SegSeg(ring[i], ring[i+1], ring[j], ring[j+1])
+			adjacent := j == i+1 || (i == 0 && j == n-1)
+			if adjacent {
+				if r.Kind == 2 {
+					return false
+				}
+				continue
+			}
+			if r.Kind != 0 {
+				return false
+			}
+		}
+	}
+	return true
+}
+
+// RingMoments returns twice the signed area (ccw positive) and the first moments
+// (6*A*cx, 6*A*cy) of a closed ring, exactly.
+func RingMoments(ring []P2) (a2, mx, my *big.Rat) {
+	a2, mx, my = new(big.Rat), new(big.Rat), new(big.Rat)
+	for i := 1; i < len(ring); i++ {
+		x0, y0, x1, y1 := R(ring[i-1].X), R(ring[i-1].Y), R(ring[i].X), R(ring[i].Y)
+		cr := rsub(rmul(x0, y1), rmul(x1, y0))
+		a2.Add(a2, cr)
+		mx.Add(mx, rmul(radd(x0, x1), cr))
+		my.Add(my, rmul(radd(y0, y1), cr))
+	}
+	return
+}
+
+func r3(p P3) [3]*big.Rat { return [3]*big.Rat{R(p.X), R(p.Y), R(p.Z)} }
+
+func dot3(a, b [3]*big.Rat) *big.Rat {
+	s := new(big.Rat)
+	for i := 0; i < 3; i++ {
+		s.Add(s, rmul(a[i], b[i]))
+	}
+	return s
+}
+
+func sub3(a, b [3]*big.Rat) [3]*big.Rat {
+	return [3]*big.Rat{rsub(a[0], b[0]), rsub(a[1], b[1]), rsub(a[2], b[2])}
+}
+
+func clamp01(t *big.Rat) *big.Rat {
+	if t.Sign() < 0 {
+		return new(big.Rat)
+	}
+	if t.Cmp(big.NewRat(1, 1)) > 0 {
+		return big.NewRat(1, 1)
+	}
+	return t
+}
+
+// PointSeg2 is the exact squared distance from p to the segment qr (3D; use Z=0 for 2D).
+func PointSeg2(p, q, r P3) *big.Rat {
+	P, Q, Rr := r3(p), r3(q), r3(r)
+	d := sub3(Rr, Q)
+	l2 := dot3(d, d)
+	w := sub3(P, Q)
+	if l2.Sign() == 0 {
+		return dot3(w, w)
+	}
+	t := clamp01(new(big.Rat).Quo(dot3(w, d), l2))
+	diff := [3]*big.Rat{rsub(w[0], rmul(t, d[0])), rsub(w[1], rmul(t, d[1])), rsub(w[2], rmul(t, d[2]))}
+	return dot3(diff, diff)
+}
+
+// SegSeg2 is the exact squared distance between segments ab and cd in 3D: the interior
+// critical point of the convex quadratic if it lies in the unit square, else the best of the
+// four edges of the square (each a point-segment problem).
+func SegSeg2(a, b, c, d P3) *big.Rat {
+	best := PointSeg2(a, c, d)
+	for _, v := range []*big.Rat{PointSeg2(b, c, d), PointSeg2(c, a, b), PointSeg2(d, a, b)} {
+		if v.Cmp(best) < 0 {
+			best = v
+		}
+	}
+	A, B, C, D := r3(a), r3(b), r3(c), r3(d)
+	u, v, w := sub3(B, A), sub3(D, C), sub3(A, C)
+	aa, bb, cc, dd, ee := dot3(u, u), dot3(u, v), dot3(v, v), dot3(u, w), dot3(v, w)
+	den := rsub(rmul(aa, cc), rmul(bb, bb))
+	if den.Sign() != 0 {
+		s := new(big.Rat).Quo(rsub(rmul(bb, ee), rmul(cc, dd)), den)
+		t := new(big.Rat).Quo(rsub(rmul(aa, ee), rmul(bb, dd)), den)
+		one := big.NewRat(1, 1)
+		if s.Sign() >= 0 && s.Cmp(one) <= 0 && t.Sign() >= 0 && t.Cmp(one) <= 0 {
+			diff := [3]*big.Rat{}
+			for i := 0; i < 3; i++ {
+				diff[i] = rsub(radd(w[i], rmul(s, u[i])), rmul(t, v[i]))
+			}
+			if q := dot3(diff, diff); q.Cmp(best) < 0 {
+				best = q
+			}
+		}
+	}
+	return best
+}
